@@ -251,7 +251,7 @@ pub(crate) fn cc_new_contract_zst_big() {
 }
 
 /// Cc::new while tracing: debug builds refuse (panic) before touching anything.
-//@ C12 | complete | deciding | feat=full,std | fn=Cc::new
+//@ C12 | complete | deciding | feat=full,std | fn=Cc::new | panic=Cannot create a new Cc while tracing!
 #[kani::proof]
 #[kani::should_panic]
 pub(crate) fn cc_new_panics_while_tracing() {
@@ -293,7 +293,7 @@ pub(crate) fn cc_clone_contract() {
 }
 
 /// At the limit the only outcome is the panic (C16).
-//@ C16 | complete | deciding | feat=full,std | fn=Cc::clone
+//@ C16 | complete | deciding | feat=full,std | fn=Cc::clone | panic=Too many references has been created to a single Cc
 #[kani::proof]
 #[kani::should_panic]
 pub(crate) fn cc_clone_panics_at_max() {
@@ -320,7 +320,7 @@ pub(crate) fn cc_clone_at_max_leaves_words() {
     core::mem::forget(h);
 }
 
-//@ C12 | complete | deciding | feat=full,std | fn=Cc::clone
+//@ C12 | complete | deciding | feat=full,std | fn=Cc::clone | panic=Cannot clone while tracing!
 #[kani::proof]
 #[kani::should_panic]
 pub(crate) fn cc_clone_panics_while_tracing() {
@@ -581,7 +581,7 @@ pub(crate) fn cc_drop_contract_resurrected() {
     core::mem::forget((y, z));
 }
 
-//@ C12 | complete | deciding | feat=full,std | fn=Cc::drop
+//@ C12 | complete | deciding | feat=full,std | fn=Cc::drop | panic=Cannot drop while tracing!
 #[kani::proof]
 #[kani::should_panic]
 pub(crate) fn cc_drop_panics_while_tracing() {
@@ -641,4 +641,30 @@ pub(crate) fn cc_drop_last_owner_recursive_chain_tf() {
 #[kani::unwind(9)]
 pub(crate) fn cc_drop_last_owner_recursive_chain_ft() {
     drop_chain_case(false, true);
+}
+
+// ------------------------------------------------------------------------------------------------
+// side-record (weak-ptrs) accessors used by weak_proofs.rs
+// ------------------------------------------------------------------------------------------------
+#[cfg(feature = "weak-ptrs")]
+pub(crate) mod md {
+    use super::*;
+    use crate::weak::weak_counter_marker::verif_proofs as wp;
+    pub(crate) type M = NonNull<BoxedMetadata>;
+    pub(crate) fn md_of(p: P) -> Option<M> {
+        if cm_of(p).has_allocated_for_metadata() { Some(unsafe { p.as_ref().get_metadata_unchecked() }) } else { None }
+    }
+    pub(crate) fn wword(m: M) -> u16 {
+        wp::word(unsafe { &m.as_ref().weak_counter_marker })
+    }
+    pub(crate) fn set_wword(m: M, v: u16) {
+        wp::set_word(unsafe { &m.as_ref().weak_counter_marker }, v)
+    }
+    /// the fat pointer stored in the record / inline (data address part)
+    pub(crate) fn vtable_data_addr(p: P) -> usize {
+        unsafe { p.as_ref() }.vtable().fat_ptr.as_ptr() as *const u8 as usize
+    }
+    pub(crate) fn record_vtable_data_addr(m: M) -> usize {
+        unsafe { m.as_ref() }.vtable.fat_ptr.as_ptr() as *const u8 as usize
+    }
 }
